@@ -316,6 +316,19 @@ def check_async_map_order(ctx, rule: str) -> None:
                     okr = False
             # the unbounded list is filled by iterating the gather result
         rep.add(rule, f"{amap.qname}:returned-results", okr, amap.loc(), "returned list is either the index-sorted list or the list filled from the gather result" if okr else "map returns a list that is neither index-sorted nor built from the gather result in order")
+        # raise mode: the error that leaves the map is that of the first failed item in input order, in both branches —
+        # every 'raise <item>.error' scans the input-ordered list that is returned
+        ret_names = {r.ast.value.id for r in rets}
+        err_raises = [n for n in walk_local(amap.node) if isinstance(n, ast.Raise) and isinstance(n.exc, ast.Attribute) and n.exc.attr == "error"]
+        bad_raise = None
+        for rz in err_raises:
+            base = rz.exc.value
+            loop = next((a for a in ancestors(rz) if isinstance(a, ast.For)), None)
+            if not (isinstance(base, ast.Name) and loop is not None and isinstance(loop.target, ast.Name) and loop.target.id == base.id and isinstance(loop.iter, ast.Name) and loop.iter.id in ret_names):
+                bad_raise = rz
+                break
+        okz = bool(err_raises) and bad_raise is None
+        rep.add(rule, f"{amap.qname}:raise-mode-first-failure-in-input-order", okz, f"{amap.module.rel}:{(bad_raise or amap.node).lineno}", f"{len(err_raises)} raise site(s): each scans the input-ordered result list and raises its first failure" if okz else (f"'{src(bad_raise)[:60]}' does not come from a scan of the input-ordered result list: the bounded map raises the failure that happened to complete first, the unbounded one the failure with the lowest index — with two failing items in flight the limited run ends with another error than the unlimited run" if bad_raise is not None else "no raise of an item's error found in the async map"))
         # unbounded branch: tasks by iterating variations; gathered iterated directly
         var_names = set(vars_from_call(db, amap, {"generate_map_inputs", "list"}))
         var_names = {v for v in var_names if any(isinstance(d, ast.Assign) and "generate_map_inputs" in src(d.value) for d in db.local_defs(amap).get(v, []))}
